@@ -13,6 +13,7 @@ import (
 	"os"
 	"strconv"
 	"strings"
+	"sync"
 	"time"
 
 	"go.amzn.com/lambda/core/statejson"
@@ -45,6 +46,9 @@ type InteropServer interface {
 }
 
 var initDone bool
+
+// initMutex makes the lazy initialisation happen once even when the first invoke requests arrive together
+var initMutex sync.Mutex
 
 func GetenvWithDefault(key string, defaultValue string) string {
 	envValue := os.Getenv(key)
@@ -102,6 +106,7 @@ func InvokeHandler(w http.ResponseWriter, r *http.Request, sandbox Sandbox, bs i
 	functionVersion := GetenvWithDefault("AWS_LAMBDA_FUNCTION_VERSION", "$LATEST")
 	memorySize := GetenvWithDefault("AWS_LAMBDA_FUNCTION_MEMORY_SIZE", "3008")
 
+	initMutex.Lock()
 	if !initDone {
 		vhook.At("frontend.lazyInit")
 
@@ -116,6 +121,7 @@ func InvokeHandler(w http.ResponseWriter, r *http.Request, sandbox Sandbox, bs i
 		// Set initDone so next invokes do not try to Init the function again
 		initDone = true
 	}
+	initMutex.Unlock()
 
 	invokeStart := time.Now()
 	invokePayload := &interop.Invoke{
